@@ -56,4 +56,4 @@ def all_harnesses():
 
 
 def harnesses(tier, seed):
-    return select(all_harnesses(), tier, seed, 10, budget=3200, max_one=260)
+    return select(all_harnesses(), tier, seed, 10)
